@@ -26,7 +26,8 @@ import Blots.Lemmas.FormatFragment
 
    * `format_idempotent_fragment` … : END TO END on the fragment of C10 (`Frag t`: binary
                                operators, prefix `-` / `!`, postfix `!`, calls, index, field,
-                               lists, lambdas, conditionals, strings, records, do-blocks over
+                               lists, lambdas, conditionals, strings, records, do-blocks,
+                               assignments over
                                names, `true false null`, integers < 10^15; the exact conditions
                                are stated in C10; unbounded depth), with the
                                character-level PEG model of the `expression` rule and the Pratt
@@ -140,7 +141,8 @@ section text
 open Blots.ExprPeg Blots.FormatFrag
 
 /-- C08 ON THE FRAGMENT of C10 (`Frag`: operators, calls, index, field, list literals,
-    lambdas, conditionals, string literals, record literals, do-blocks), every width: the formatted text of a fragment tree is read
+    lambdas, conditionals, string literals, record literals, do-blocks, assignments), every
+    width: the formatted text of a fragment tree is read
     back (character-level PEG recogniser + Pratt parser) to a tree whose formatted text is the
     same text. -/
 theorem format_idempotent_fragment (t : Expr) (h : Frag t) (w : Nat) :
@@ -294,6 +296,17 @@ example :
     formatExpr x5 (some 80) = "x => do {\n  g(x)\n  (-(x + b))\n  return x * c\n}" ∧
     formatExpr x5 (some 4) =
       "x => do {\n  g(\n    x,\n  )\n  (-(x\n    + b))\n  return x\n    * c\n}" := by
+  decide +kernel
+/-- assignments -/
+private abbrev x6 : Expr :=
+  .assign "f" (.lambda [.req "x"] (.doBlock [.mk [] (.assign "y" (.call ig [.ident "x"])) none]
+    (.mk [] (.bin .mul (.ident "y") (.bin .add ib (.assign "z" ic))) none)))
+example : Frag x6 := by decide +kernel
+example : (parseText (formatExpr x6 (some 10))).map (formatExpr · (some 10)) =
+    some (formatExpr x6 (some 10)) := format_parse_format x6 (by decide +kernel) 10
+example :
+    (parseText (formatExpr x6 (some 4))).map (formatExpr · (some 80)) = some (formatExpr x6 (some 80)) ∧
+    formatExpr x6 (some 80) = "f = x => do {\n  y = g(x)\n  return y * (b + z = c)\n}" := by
   decide +kernel
 end text_examples
 
